@@ -436,3 +436,13 @@ def check(prog: Program, rep):
     rep.rule("C10.R7", "node-weighted constraints, starts and ends are translated totally and by the expansion scheme (C11.R3)", floor=14)
     from rules.common import node_mode_plumbing
     node_mode_plumbing(prog, rep, "C10.R7")
+    rep.rule("C10.R8", "declared starts / ends and ignored elements reach every derived computation: source-sink graphs, node expansion flag, "
+             "whole-flow shortcuts (greedy, flow-safe paths), repetition caps, percentile ignore list", floor=16)
+    from rules import plumb
+    from rules.bounds import cap_premises
+    plumb.stgraph_starts_rule(prog, rep, "C10.R8")
+    plumb.node_expansion_fill_rule(prog, rep, "C10.R8")
+    plumb.whole_flow_shortcuts_rule(prog, rep, "C10.R8")
+    cap_premises(prog, rep, "C10.R8", "kFlowDecompCycles", which=("P1",))
+    plumb.ignore_list_accumulates(prog, rep, "C10.R8")
+
